@@ -62,8 +62,10 @@ OnLatency == /\ Ev.e = "TellLatency"
              /\ UNCHANGED <<sent, got, asked, replied, dls>>
 (* Accept v: a connection whose handshake bytes are valid was accepted (1) or refused (0) by the receiving side *)
 OnAccept == Ev.e = "Accept" /\ bad' = (IF Ev.v # 1 THEN Flag("ValidConnectionAccepted") ELSE bad) /\ UNCHANGED <<sent, got, asked, replied, dls>>
-OnOther == Ev.e \notin {"Reset", "Sent", "Recv", "Replied", "DLocal", "End", "TellLatency", "Accept"} /\ UNCHANGED <<bad, sent, got, asked, replied, dls>>
-Next == l <= Len(TLog) /\ l' = l + 1 /\ (OnLatency \/ OnReset \/ OnSent \/ OnRecv \/ OnReplied \/ OnDLocal \/ OnEnd \/ OnAccept \/ OnOther)
+(* Attempts m n: the peer saw m connections although n = messages x (ReconnectLimit + 1) is all the sender may open *)
+OnAttempts == Ev.e = "Attempts" /\ bad' = (IF Ev.m > Ev.n THEN Flag("ReconnectAttemptsBounded") ELSE bad) /\ UNCHANGED <<sent, got, asked, replied, dls>>
+OnOther == Ev.e \notin {"Reset", "Sent", "Recv", "Replied", "DLocal", "End", "TellLatency", "Accept", "Attempts"} /\ UNCHANGED <<bad, sent, got, asked, replied, dls>>
+Next == l <= Len(TLog) /\ l' = l + 1 /\ (OnLatency \/ OnReset \/ OnSent \/ OnRecv \/ OnReplied \/ OnDLocal \/ OnEnd \/ OnAccept \/ OnAttempts \/ OnOther)
 Spec == Init /\ [][Next]_vars
 Ok == bad = ""
 Accepted == TLCGet("stats").diameter - 1 = Len(TLog)
